@@ -13,8 +13,9 @@ import (
 // C16 — with debug off, preflight responses disclose nothing beyond what was asked.
 
 type c16Case struct {
-	Cfg CfgLit   `json:"config"`
-	Req vlib.Req `json:"request"`
+	Cfg   CfgLit   `json:"config"`
+	Req   vlib.Req `json:"request"`
+	Route int      `json:"route,omitempty"` // construction route (see suite.go); debug ends up off on every route
 }
 
 // c16Baseline is a preflight that certainly fails under l: an origin that is not allowed or, for allow-all
@@ -65,9 +66,9 @@ func c16MustFail(l CfgLit, r vlib.Req) (bool, string) {
 }
 
 func c16Judge(k c16Case) *vlib.Failure {
-	m, err := cors.NewMiddleware(k.Cfg.Config())
+	m, err := buildVia(k.Route, k.Cfg, false)
 	if err != nil {
-		return vlib.Failf("configuration of the C16 alphabet rejected: %v", err)
+		return vlib.Failf("configuration of the C16 alphabet rejected (route %q): %v", routeNames[k.Route], err)
 	}
 	inner := &vlib.Noop{}
 	h := m.Wrap(inner)
@@ -171,9 +172,20 @@ func checkC16(c *vlib.Ctx) (string, string) {
 		{Origins: []string{"https://a.example", co}, PNA: true, Methods: []string{"PUT", cm}, RequestHeaders: []string{"X-A", ch}},
 		{Origins: []string{"https://a.example", co}, PNANoCORS: true, Methods: []string{"PUT", cm}, RequestHeaders: []string{"X-A", ch}, MaxAge: 5},
 	}
+	// every ordering of {*, Authorization, canary header} (and sub-lists) x {*, canary method}, anonymous and credentialed
+	for _, hl := range [][]string{{ch, "*", "Authorization"}, {"*", ch, "Authorization"}, {"Authorization", ch, "*"}, {ch, "Authorization", "*"}, {"*", "Authorization", ch}, {"Authorization", "*", ch}, {ch, "*"}, {"*", ch}, {ch, "Authorization"}, {"X-A", ch, "*", "X-B", "Authorization"}} {
+		for _, ml := range [][]string{{cm, "*"}, {"*", cm}, {"PUT", cm}} {
+			for _, cred := range []bool{false, true} {
+				base = append(base, CfgLit{Origins: []string{"https://a.example", co}, Credentialed: cred, Methods: ml, RequestHeaders: hl, ResponseHeaders: []string{cr, "X-R"}, MaxAge: 30})
+			}
+		}
+	}
 	var cfgs []CfgLit
 	for _, b := range base {
-		for _, st := range []int{0, 200, 204, 299} {
+		for i, st := range []int{0, 200, 204, 299} {
+			if len(cfgs) > 40 && i > 0 && i < 3 {
+				continue // the ordering family uses two statuses only
+			}
 			b.Status = st
 			cfgs = append(cfgs, b)
 		}
@@ -206,7 +218,7 @@ func checkC16(c *vlib.Ctx) (string, string) {
 		if v := acrpns[ix[4]]; v != nil {
 			hdr["Access-Control-Request-Private-Network"] = v
 		}
-		k := c16Case{cfgs[ix[0]], vlib.Req{Method: "OPTIONS", Hdr: hdr}}
+		k := c16Case{Cfg: cfgs[ix[0]], Req: vlib.Req{Method: "OPTIONS", Hdr: hdr}, Route: int(i % nRoutes)}
 		if ck.Try(k) {
 			rec := vlib.NewRec()
 			bs[ix[0]].h.ServeHTTP(rec, k.Req.HTTP())
